@@ -10,6 +10,7 @@ every stored revision is compared, file by file, with the model of the property:
 last-changed revision, per-file parents, repository check."""
 
 from simkit import world
+from simkit.sim import HarnessTruncated, SimCrash, Violation
 
 from . import storesim
 from .storesim import DagGen, replay_dag
@@ -59,7 +60,7 @@ def config(tier):
 def generate(rng, tier):
     fmt = rng.choice(FORMATS)
     layout = rng.choice(["shared", "shared", "separate"])
-    g = DagGen(rng, ghosts=rng.choice([0.0, 0.0, 0.1]), octopus=rng.choice([0.0, 0.1, 0.2]))
+    g = DagGen(rng, ghosts=rng.choice([0.0, 0.0, 0.1]), octopus=rng.choice([0.0, 0.1, 0.2]), twins=rng.choice([0.0, 0.1, 0.2]), dup_content=rng.choice([0.0, 0.15]))
     specs = g.run(rng.randint(6, 30), merge_p=rng.choice([0.25, 0.35, 0.5]))
     ops = []
     for s in specs:
@@ -112,21 +113,22 @@ def execute(sim, plan):
                 continue  # shrunk away
             if spec["branch"] in db.wts and (not spec["parents"] or spec["parents"][0] != tips.get(spec["branch"])):
                 continue  # shrunk: the branch tip is not this revision's first parent
-            try:
-                db.commit(spec)
-            except Exception as e:  # noqa: BLE001 - the property quantifies over all such histories
-                import traceback
-
-                frames = [f.name for f in traceback.extract_tb(e.__traceback__) if "/breezy/" in f.filename]
-                sim.fail("commit_failed", ["commit_failed", fmt, f"{type(e).__name__}:{frames[-1] if frames else '?'}"], f"commit of {spec['id']} (parents {spec['parents']}, {spec['tags']}) failed: {type(e).__name__}: {e}\n{traceback.format_exc()[-1500:]}")
+            # an exception escaping the commit (pyo3 PanicException included) is reported by the
+            # builder as a violation: oracle op_failed, signature [op_failed, fmt, commit, Class:frame]
+            db.commit(spec)
             done.append(spec)
             tips[spec["branch"]] = spec["id"]
             sim.event("committed", spec["id"], ",".join(spec["parents"]))
         elif op[0] == "pack":
             if op[1] in db.wts:
                 repo = storesim.open_branch(db.branch_url(op[1])).repository
-                with repo.lock_write():
-                    repo.pack()
+                try:
+                    with repo.lock_write():
+                        repo.pack()
+                except (SimCrash, Violation, HarnessTruncated, KeyboardInterrupt, SystemExit, MemoryError):
+                    raise
+                except BaseException as e:  # noqa: B036
+                    storesim.report_op_failure(sim, "pack", fmt, e, f"pack() of the repository of branch {op[1]}")
                 sim.probe("pack")
         elif op[0] == "reopen":
             db.forget()
